@@ -12,6 +12,10 @@
 (*                          names), ulp (integer ulp distance, worst entry)*)
 (*                          isout / outulp (out= protocol),                *)
 (*           unchanged (operands not modified), err,                       *)
+(*           layout (C / F / S = strided view: memory layout of operands   *)
+(*           and out objects), wrapshare (element shares memory with the   *)
+(*           caller array it wraps), backulp (at: that caller array vs the *)
+(*           reference), gaps (buffer entries outside a strided view kept),*)
 (*           exact = 1: xin, yin, b, vals  -- the specification recomputes *)
 (*           the values itself (ExactCall.. of UfuncSem)                   *)
 (*  "wrap"   space.element(arr): shares memory, asarray() round trip       *)
@@ -62,6 +66,11 @@ UfClauses(e) ==
             \cup (IF c.outkind # "none" /\ e.outulp[k] > MaxUlp THEN {"out-not-written"} ELSE {})
             : k \in 1..nout }
     \cup (IF e.unchanged = 0 THEN {"operand-modified"} ELSE {})
+    \* memory: the element wraps the caller's array without copy; `at` changes that very array;
+    \* nothing outside a strided view is written
+    \cup (IF e.wrapshare = 0 THEN {"wrap-copies"} ELSE {})
+    \cup (IF e.backulp > MaxUlp THEN {"at-not-in-place"} ELSE {})
+    \cup (IF e.gaps = 0 THEN {"wrote-outside-view"} ELSE {})
     \cup (IF e.exact = 1 /\ Tuplify(ExactValue(e).v) # e.vals[1] THEN {"exact-value"} ELSE {})
 
 WrapClauses(e) ==
